@@ -41,3 +41,127 @@ def engine():
 
 CONTRACTS = [FindSignalOrPort()]
 VERIFY = CONTRACTS
+
+
+# ---------------------------------------------------------------------------------------------------------------------
+# Flattened names are ':'-joined instance paths.  (1) walk() refuses any instance / connected signal whose name contains
+# the separator (the guard statements located in the current source, executed for an arbitrary instance / signal);
+# (2) FlattenedInstance.make_name joins the path's names with ':' (paths of 1-3 instances: arity unrolled);
+# (3) lemma over (1)+(2): for separator-free, non-empty segments the join is injective - two different paths (of the same
+#     or of different lengths up to 3) never share a flattened name, so designer names "chosen to collide" cannot.
+# ---------------------------------------------------------------------------------------------------------------------
+def walk_guard_obligations():
+    import ast
+    from pyvc import loader
+    from pyvc.engine import Frame
+    key = "hdl21.flatten:walk"
+    ext = loader.extract(key)
+    info = {"sha": ext.sha, "lines": ext.lines, "path": ext.path, "paths": 0, "scenarios": 0, "unsupported": []}
+    obs = []
+    outer = [n for n in ext.node.body if isinstance(n, ast.For)]
+    if len(outer) != 1:
+        info["unsupported"].append("walk: instance loop not found")
+        return key, obs, info
+    outer = outer[0]
+    inner = [n for n in outer.body if isinstance(n, ast.For)]
+    guards = []
+    first = outer.body[0]
+    if isinstance(first, ast.If):
+        guards.append(("instance-name", [first], outer.target.id if isinstance(outer.target, ast.Name) else None, Instance,
+                       lambda st, r: st.heap.get("name", r.z)))
+    if inner and isinstance(inner[0].target, ast.Tuple):
+        body0 = inner[0].body[0]
+        if isinstance(body0, ast.If):
+            guards.append(("signal-name", [body0], inner[0].target.elts[1].id, Signal, lambda st, r: st.heap.get("name", r.z)))
+    if len(guards) != 2:
+        info["unsupported"].append(f"walk: expected the two separator guards, found {len(guards)}")
+    for tag, stmts, var, cls, name_of in guards:
+        eng = mk_engine(field_classes=FIELD_CLASSES)
+        st = eng.new_state()
+        obj = sym_ref(st, var, (cls,))
+        st.assume(z3.Not(st.heap.get("name$none", obj.z)))
+        m = sym_ref(st, "m", (Module,))
+        st.locals = {var: obj, "m": m, "parents": [], "conns": {}}
+        eng.frames.append(Frame(ext, ext.key))
+        eng.cuts = []
+        try:
+            outs = []
+            for stmt in stmts:
+                outs = eng.exec_block([stmt], st)
+        except Unsupported as e:
+            info["unsupported"].append(f"{tag}: {e}")
+            continue
+        finally:
+            eng.frames.pop()
+        info["scenarios"] += 1
+        for pi, (kind, s2, v) in enumerate(outs):
+            info["paths"] += 1
+            has_sep = z3.Contains(name_of(s2, obj), z3.StringVal(":"))
+            meta = {"trace": list(s2.trace), "havoc": list(s2.ghost.get("havoc", ()))}
+            if kind == "exc":
+                goal = z3.And(has_sep, z3.BoolVal(v.cls in (ValueError, NotImplementedError, TypeError, RuntimeError)))
+                obs.append(Obligation(f"{key}/{tag}/p{pi}/raises-only-for-a-separator", "raises", list(s2.pc), goal, key,
+                                      tag, pi, meta))
+            else:
+                obs.append(Obligation(f"{key}/{tag}/p{pi}/post.continues-only-without-separator", "post", list(s2.pc),
+                                      z3.Not(has_sep), key, tag, pi, meta))
+    return key, obs, info
+
+
+def join_injective_lemmas():
+    """[(name, assumptions, goal)] for paths of 1..3 segments"""
+    def join(xs):
+        acc = xs[0]
+        for x in xs[1:]:
+            acc = z3.Concat(acc, z3.StringVal(":"), x)
+        return acc
+    out = []
+    for n in (1, 2, 3):
+        for m in (1, 2, 3):
+            a = [z3.String(f"a{i}") for i in range(n)]
+            b = [z3.String(f"b{i}") for i in range(m)]
+            asm = [z3.Not(z3.Contains(x, z3.StringVal(":"))) for x in a + b] + [z3.Length(x) > 0 for x in a + b]
+            goal = z3.Implies(join(a) == join(b), z3.And([x == y for x, y in zip(a, b)])) if n == m else join(a) != join(b)
+            out.append((f"flattened-names-injective/{n}x{m}", asm, goal))
+    return out
+
+
+def make_name_obligations():
+    """FlattenedInstance.make_name(): ':'.join of the path's instance names ('_' for an unnamed one), paths of 1-3"""
+    from pyvc import loader
+    from hdl21.flatten import FlattenedInstance
+    key = "hdl21.flatten:FlattenedInstance.make_name"
+    ext = loader.extract(key)
+    info = {"sha": ext.sha, "lines": ext.lines, "path": ext.path, "paths": 0, "scenarios": 0, "unsupported": []}
+    obs = []
+    for arity in (1, 2, 3):
+        eng = mk_engine(schema_extra={"path": "py"}, field_classes=FIELD_CLASSES)
+        st = eng.new_state()
+        me = sym_ref(st, "self", (FlattenedInstance,))
+        path = [sym_ref(st, f"i{k}", (Instance,)) for k in range(arity)]
+        eng.write_field(st, me, "path", path)
+        eng.cuts = []
+        try:
+            outs = eng.run(ext, st, {"self": me})
+        except Unsupported as e:
+            info["unsupported"].append(f"arity {arity}: {e}")
+            continue
+        info["scenarios"] += 1
+        for pi, (kind, s2, v) in enumerate(outs):
+            info["paths"] += 1
+            meta = {"trace": list(s2.trace), "havoc": list(s2.ghost.get("havoc", ()))}
+            if kind != "ret" or not isinstance(v, (str, SStr)):
+                obs.append(Obligation(f"{key}/arity{arity}/p{pi}/returns-a-name", "post", list(s2.pc), z3.BoolVal(False), key,
+                                      f"arity{arity}", pi, meta))
+                continue
+            segs = []
+            for p in path:
+                none = s2.heap.get("name$none", p.z)
+                nm = s2.heap.get("name", p.z)
+                segs.append(z3.If(z3.Or(none, z3.Length(nm) == 0), z3.StringVal("_"), nm))
+            want = segs[0]
+            for sgm in segs[1:]:
+                want = z3.Concat(want, z3.StringVal(":"), sgm)
+            obs.append(Obligation(f"{key}/arity{arity}/p{pi}/post.colon-joined-path", "post", list(s2.pc), zstr(v) == want,
+                                  key, f"arity{arity}", pi, meta))
+    return key, obs, info
